@@ -12,7 +12,8 @@ from ..volumes import rule_V2
 LEVEL_TEXT = ('Weak structural claim only: the pool path merges exactly the counters the serial '
               'path advances; counters describe the rows actually cached; acceptance depends on '
               'multiplicity over all members and allocation on member volumes; counters are '
-              'persisted.  Uniformity and calibration as distributional facts are NOT decided.')
+              'persisted.  Uniformity and calibration as distributional facts are NOT decided.'
+              ' Plus exact algebra for the closed-form volumes (rational accepted fraction, log|det M| + (n/2) log pi - lgamma(n/2+1) for the sampling matrix M), acceptance probability 1/multiplicity, proposal-cache discipline and fresh counters.')
 
 
 def run(ctx):
